@@ -8,28 +8,6 @@
 #define XV_CTL_H
 #include "contracts/begin.h"
 
-/* ------------------------------------------------------------------ strings without quantifiers */
-#define XV_ROOM(p) ((size_t)(__CPROVER_OBJECT_SIZE(p) - (size_t)__CPROVER_POINTER_OFFSET(p)))
-#define XV_Z1(p, k) ((size_t)(k) < XV_ROOM(p) && (p)[k] == 0)
-#define XV_Z4(p, k) (XV_Z1(p, k) || XV_Z1(p, (k) + 1) || XV_Z1(p, (k) + 2) || XV_Z1(p, (k) + 3))
-#define XV_Z16(p, k) (XV_Z4(p, k) || XV_Z4(p, (k) + 4) || XV_Z4(p, (k) + 8) || XV_Z4(p, (k) + 12))
-/* p is a C string of fewer than 64 characters whose terminator lies inside the object p points into */
-#define XV_CSTR64(p) (XV_Z16(p, 0) || XV_Z16(p, 16) || XV_Z16(p, 32) || XV_Z16(p, 48))
-#define XV_N1(p, k, n) ((size_t)(k) < (n) ==> (p)[k] != 0)
-#define XV_N4(p, k, n) (XV_N1(p, k, n) && XV_N1(p, (k) + 1, n) && XV_N1(p, (k) + 2, n) && XV_N1(p, (k) + 3, n))
-#define XV_N16(p, k, n) (XV_N4(p, k, n) && XV_N4(p, (k) + 4, n) && XV_N4(p, (k) + 8, n) && XV_N4(p, (k) + 12, n))
-/* no NUL among the first n (< 96) characters of p */
-#define XV_NONUL96(p, n) (XV_N16(p, 0, n) && XV_N16(p, 16, n) && XV_N16(p, 32, n) && XV_N16(p, 48, n) && XV_N16(p, 64, n) && XV_N16(p, 80, n))
-/* p is the string "tls.key" (XCM_ATTR_TLS_KEY) */
-#define XV_IS_TLS_KEY(p) ((p)[0] == 't' && (p)[1] == 'l' && (p)[2] == 's' && (p)[3] == '.' && (p)[4] == 'k' && (p)[5] == 'e' && (p)[6] == 'y' && (p)[7] == 0)
-
-#ifndef XV_CTL_NAME_OBJ
-#define XV_CTL_NAME_OBJ 96      /* attribute names of 0..95 characters are explored (the wire field holds 63) */
-#endif
-#ifndef XV_CTL_LEN_MAX
-#define XV_CTL_LEN_MAX 1024     /* attribute values of 0..1024 bytes are explored (the wire field holds 512)  */
-#endif
-
 /* ------------------------------------------------------------------ xcm_attr_get (libxcm/core/xcm.c), ASSUMED
  * name must be a C string terminated inside the object it points into (and shorter than XCM_ATTR_NAME_MAX);
  * at most `capacity` bytes of value are written; the ghosts record what the in-process call reported. */
@@ -55,32 +33,30 @@ __CPROVER_requires(__CPROVER_is_fresh(socket, sizeof(*socket)) && __CPROVER_is_f
 __CPROVER_requires(XV_CTL_CNT_OK(xv_ctl_get_calls))
 __CPROVER_assigns(xv_errno, xv_ctl_get_rv, xv_ctl_get_errno, xv_ctl_get_type, xv_ctl_get_j, xv_ctl_get_calls)
 __CPROVER_assigns(response->type, response->get_attr_rej.rej_errno, PGA_CFM(response).value_type, PGA_CFM(response).value_len, \
-                  __CPROVER_object_upto(PGA_CFM(response).any_value, CTL_ATTR_VALUE_MAX))
-__CPROVER_ensures(xv_errno == __CPROVER_old(xv_errno) && xv_ctl_get_calls == __CPROVER_old(xv_ctl_get_calls) + 1)
+                  __CPROVER_object_upto(PGA_CFM(response).any_value, CTL_ATTR_VALUE_MAX + (size_t)xv_ctl_z))
+__CPROVER_ensures(xv_errno == __CPROVER_old(xv_errno))
+__CPROVER_ensures(xv_ctl_get_calls == __CPROVER_old(xv_ctl_get_calls) || xv_ctl_get_calls == __CPROVER_old(xv_ctl_get_calls) + 1)
 /* PO[C14] process_get_attr.reply_type */
 __CPROVER_ensures(response->type == ctl_proto_type_get_attr_cfm || response->type == ctl_proto_type_get_attr_rej)
 /* PO[C14] process_get_attr.reply_equals_in_process */
-__CPROVER_ensures(!XV_IS_TLS_KEY(req->attr_name) ==> (xv_ctl_get_rv >= 0 \
+__CPROVER_ensures((XV_CSTR64(req->attr_name) && !XV_IS_TLS_KEY(req->attr_name)) ==> (xv_ctl_get_calls == __CPROVER_old(xv_ctl_get_calls) + 1 && (xv_ctl_get_rv >= 0 \
         ? (response->type == ctl_proto_type_get_attr_cfm && PGA_CFM(response).value_len == (size_t)xv_ctl_get_rv && \
            (int)PGA_CFM(response).value_type == xv_ctl_get_type && PGA_CFM(response).value_len <= CTL_ATTR_VALUE_MAX && \
            (xv_ctl_j < (size_t)xv_ctl_get_rv ==> PGA_CFM(response).any_value[xv_ctl_j] == xv_ctl_get_j)) \
-        : (response->type == ctl_proto_type_get_attr_rej && response->get_attr_rej.rej_errno == xv_ctl_get_errno && xv_ctl_get_errno > 0)))
+        : (response->type == ctl_proto_type_get_attr_rej && response->get_attr_rej.rej_errno == xv_ctl_get_errno && xv_ctl_get_errno > 0))))
 /* PO[C14] process_get_attr.tls_key_never_disclosed */
 __CPROVER_ensures(XV_IS_TLS_KEY(req->attr_name) ==> (response->type == ctl_proto_type_get_attr_rej && response->get_attr_rej.rej_errno == EACCES && \
         (xv_ctl_j < CTL_ATTR_VALUE_MAX ==> PGA_CFM(response).any_value[xv_ctl_j] == 0)))
+/* a name without terminator inside attr_name[64] is never handed to the attribute code: the query is rejected */
+/* PO[C14] process_get_attr.unterminated_name_rejected */
+__CPROVER_ensures(!XV_CSTR64(req->attr_name) ==> (response->type == ctl_proto_type_get_attr_rej && response->get_attr_rej.rej_errno > 0 && \
+        xv_ctl_get_calls == __CPROVER_old(xv_ctl_get_calls)))
 ;
 
 /* ------------------------------------------------------------------ add_attr: the xcm_attr_get_all callback
  * An attribute is REPORTABLE when the protocol can carry it: name shorter than name[64], value at most 512 bytes, and it is
  * not tls.key.  A reportable attribute is appended (exact copy) while the table has room; anything else leaves the reply
  * untouched -- in particular nothing is ever written outside the entry being filled, and nothing aborts. */
-#define AA_CFM(d) ((struct ctl_proto_get_all_attr_cfm *)(d))
-#define AA_ENTRY(d) (AA_CFM(d)->attrs[xv_ctl_g_len0])
-#define AA_REPORTABLE(name, namelen, len) (!XV_IS_TLS_KEY(name) && (namelen) < XCM_ATTR_NAME_MAX && (len) <= CTL_ATTR_VALUE_MAX)
-#define AA_ADDS(name, namelen, len) (AA_REPORTABLE(name, namelen, len) && xv_ctl_g_len0 < CTL_PROTO_MAX_ATTRS)
-size_t xv_ctl_g_len0;      /* ghost constant: attrs_len on entry */
-size_t xv_ctl_g_namelen;   /* ghost constant: strlen(attr_name)  */
-size_t xv_ctl_g_len;       /* ghost constant: len                */
 static void add_attr(const char *attr_name, enum xcm_attr_type type, void *value, size_t len, void *data)
 __CPROVER_requires(XV_CTL_Z_LO)
 __CPROVER_requires(XV_CTL_Z_HI)
@@ -89,15 +65,35 @@ __CPROVER_requires(AA_CFM(data)->attrs_len <= CTL_PROTO_MAX_ATTRS && AA_CFM(data
 __CPROVER_requires(xv_ctl_g_namelen < XV_CTL_NAME_OBJ && __CPROVER_is_fresh(attr_name, xv_ctl_g_namelen + 1))
 __CPROVER_requires(attr_name[xv_ctl_g_namelen] == 0 && XV_NONUL96(attr_name, xv_ctl_g_namelen))
 __CPROVER_requires(len <= XV_CTL_LEN_MAX && len == xv_ctl_g_len && __CPROVER_is_fresh(value, len == 0 ? 1 : len))
-__CPROVER_assigns(AA_ADDS(attr_name, xv_ctl_g_namelen, len): AA_CFM(data)->attrs_len, AA_ENTRY(data).value_type, AA_ENTRY(data).value_len, \
-                  __CPROVER_object_upto(AA_ENTRY(data).name, XCM_ATTR_NAME_MAX), __CPROVER_object_upto(AA_ENTRY(data).any_value, CTL_ATTR_VALUE_MAX))
+__CPROVER_assigns(AA_ADDS(attr_name, xv_ctl_g_namelen, len): AA_CFM(data)->attrs_len, __CPROVER_object_upto(&AA_ENTRY(data), XV_CTL_SIZEOF(AA_ENTRY(data))))
 /* PO[C14] add_attr.table_bound */
 __CPROVER_ensures(AA_CFM(data)->attrs_len <= CTL_PROTO_MAX_ATTRS && \
                   AA_CFM(data)->attrs_len == xv_ctl_g_len0 + (AA_ADDS(attr_name, xv_ctl_g_namelen, len) ? 1 : 0))
 /* PO[C14] add_attr.entry_equals_in_process */
 __CPROVER_ensures(AA_ADDS(attr_name, xv_ctl_g_namelen, len) ==> (AA_ENTRY(data).value_type == type && AA_ENTRY(data).value_len == len && \
         (xv_mc < len ==> AA_ENTRY(data).any_value[xv_mc] == ((const uint8_t *)value)[xv_mc]) && \
-        (xv_ctl_j <= xv_ctl_g_namelen ==> AA_ENTRY(data).name[xv_ctl_j] == attr_name[xv_ctl_j])))
+        (xv_ctl_j <= xv_ctl_g_namelen ==> AA_ENTRY(data).name[xv_ctl_j] == attr_name[xv_ctl_j]) && AA_ENTRY(data).name[xv_ctl_g_namelen] == 0))
+;
+
+/* ------------------------------------------------------------------ process_get_all_attr
+ * xcm_attr_get_all is the stub of env/ctl_env.h: ANY number of callbacks with ANY name/type/value; it counts the reportable
+ * ones (xv_ctl_all_n) and records the xv_ctl_i-th of them.  The reply must be typed, list min(n, 64) attributes, and
+ * its xv_ctl_i-th entry must be the xv_ctl_i-th reportable attribute -- whatever pending_response held before. */
+#define PGAA_CFM(r) ((r)->get_all_attr_cfm)
+static void process_get_all_attr(struct xcm_socket *socket, struct ctl_proto_msg *response)
+__CPROVER_requires(XV_CTL_Z_LO)
+__CPROVER_requires(XV_CTL_Z_HI)
+__CPROVER_requires(__CPROVER_is_fresh(socket, sizeof(*socket)) && __CPROVER_is_fresh(response, XV_CTL_SIZEOF(*response)))
+__CPROVER_requires(XV_CTL_CNT_OK(xv_ctl_all_calls))
+__CPROVER_assigns(XV_CTL_ALL_GHOSTS, response->type, __CPROVER_object_upto(&PGAA_CFM(response), XV_CTL_SIZEOF(PGAA_CFM(response))))
+__CPROVER_ensures(xv_ctl_all_calls == __CPROVER_old(xv_ctl_all_calls) + 1)
+/* PO[C14] process_get_all_attr.reply_type */
+__CPROVER_ensures(response->type == ctl_proto_type_get_all_attr_cfm)
+/* PO[C14] process_get_all_attr.table_bound */
+__CPROVER_ensures(PGAA_CFM(response).attrs_len <= CTL_PROTO_MAX_ATTRS && \
+                  PGAA_CFM(response).attrs_len == (xv_ctl_all_n < CTL_PROTO_MAX_ATTRS ? xv_ctl_all_n : CTL_PROTO_MAX_ATTRS))
+/* PO[C14] process_get_all_attr.reply_equals_in_process */
+__CPROVER_ensures(XV_CTL_ALL_ENTRY_I(&PGAA_CFM(response)))
 ;
 
 #include "contracts/end.h"
